@@ -13,7 +13,8 @@ template <class T> static int enc(const unsigned char *key, size_t klen, const u
 {
     T obj;
     if (!obj.set_key(key, klen)) return -1000;
-    obj.set_nonce(nonce, 16);
+    /* every other call hands the nonce over with five more bytes behind it: documented to use the first 16 */
+    { static unsigned longer; if (longer++ & 1) { unsigned char nb[21]; memcpy(nb, nonce, 16); memset(nb + 16, 0xE7, 5); obj.set_nonce(nb, 21); } else obj.set_nonce(nonce, 16); }
     return obj.encrypt(c, m, mlen, ad, adlen);
 }
 template <class T> static int dec(const unsigned char *key, size_t klen, const unsigned char *nonce,
@@ -21,7 +22,7 @@ template <class T> static int dec(const unsigned char *key, size_t klen, const u
 {
     T obj;
     if (!obj.set_key(key, klen)) return -1000;
-    obj.set_nonce(nonce, 16);
+    { static unsigned longer; if (longer++ & 1) { unsigned char nb[21]; memcpy(nb, nonce, 16); memset(nb + 16, 0xE7, 5); obj.set_nonce(nb, 21); } else obj.set_nonce(nonce, 16); }
     return obj.decrypt(m, c, clen, ad, adlen);
 }
 #define DISPATCH(fn, ...) \
@@ -68,7 +69,11 @@ template <class T> static int dec_ba(const unsigned char *key, size_t klen, cons
     if (!obj.set_key(key, klen)) return -1000;
     obj.set_nonce(nonce, 16);
     ascon::byte_array bc = ascon::bytes_from_data(c, clen), bad = ascon::bytes_from_data(ad, adlen), bm(presize, 0xCC); bool ok;
+    /* the output array may arrive as a value copy of the ciphertext or of the associated data (with the copy-on-write byte_array of ASCON_NO_STL builds they then share storage):
+     * the inputs the caller still holds must come out of the call unchanged (-5000 otherwise) */
+    if (presize % 3 == 1) bm = bc; else if (presize % 3 == 2) bm = bad;
     try { ok = (form == 1 && !adlen) ? obj.decrypt(bm, bc) : obj.decrypt(bm, bc, bad); } catch (...) { return -3000; }
+    if (bc.size() != clen || (clen && memcmp(bc.data(), c, clen)) || bad.size() != adlen || (adlen && memcmp(bad.data(), ad, adlen))) return -5000;
     if (!ok) { if (bm.size()) return -4000; if (clen > 16) memset(m, 0, clen - 16); return -1; }   /* an empty array releases nothing: the caller's buffer reads as wiped */
     size_t n = bm.size(), k = (clen >= 16 && n > clen - 16) ? clen - 16 : n; if (k) memcpy(m, bm.data(), k);
     return (int)n;
@@ -159,19 +164,24 @@ extern "C" void cpp_cxof(int a, size_t declared, const char *fn, const unsigned 
 }
 
 /* chunked input through each overload of update / absorb: the message in three chunks cut at s1 <= s2; form 0 = (pointer, length), 1 = byte_array, 2 = std::string (may hold NUL characters) */
+#if !defined(ASCON_NO_STL)
 #include <string>
+#define STR_CHUNK(p, l) std::string(reinterpret_cast<const char *>(p), l)
+#else
+#define STR_CHUNK(p, l) ascon::bytes_from_data(p, l)   /* no std::string overloads in this configuration */
+#endif
 template <class H> static void hash_chunks(const unsigned char *m, size_t n, size_t s1, size_t s2, int form, unsigned char *out)
 {
     H h; const size_t cut[4] = {0, s1, s2, n};
     for (int i = 0; i < 3; i++) { const unsigned char *p = m + cut[i]; size_t l = cut[i + 1] - cut[i];
-        if (form == 0) h.update(p, l); else if (form == 1) h.update(ascon::bytes_from_data(p, l)); else h.update(std::string(reinterpret_cast<const char *>(p), l)); }
+        if (form == 0) h.update(p, l); else if (form == 1) h.update(ascon::bytes_from_data(p, l)); else h.update(STR_CHUNK(p, l)); }
     h.finalize(out);
 }
 template <class X> static void xof_chunks(const unsigned char *m, size_t n, size_t s1, size_t s2, int form, unsigned char *out)
 {
     X x; const size_t cut[4] = {0, s1, s2, n};
     for (int i = 0; i < 3; i++) { const unsigned char *p = m + cut[i]; size_t l = cut[i + 1] - cut[i];
-        if (form == 0) x.absorb(p, l); else if (form == 1) x.absorb(ascon::bytes_from_data(p, l)); else x.absorb(std::string(reinterpret_cast<const char *>(p), l)); }
+        if (form == 0) x.absorb(p, l); else if (form == 1) x.absorb(ascon::bytes_from_data(p, l)); else x.absorb(STR_CHUNK(p, l)); }
     if (form == 1) { ascon::byte_array o = x.squeeze(13); ascon::byte_array o2 = x.squeeze(0); ascon::byte_array o3 = x.squeeze(19); memcpy(out, o.data(), 13); memcpy(out + 13, o3.data(), 19); if (o2.size() != 0) out[0] ^= 0xff; }
     else { x.squeeze(out, 13); x.squeeze(out + 13, 19); }
 }
